@@ -515,10 +515,14 @@ class CIMachine(FormatMachine):
             if expect == "fail" and not isinstance(raised, (ValueError, TypeError)):
                 raise Violation("C11", "C11.refusal_exception_type", "exctype/%s/%s" % (why, exc_class(raised)),
                                 {"error": exc_class(raised), "why": why})
-            if after != before:
+            if after != before and self.watching("C11"):
                 d = first_diff(before, after)
                 raise Violation("C11", "C11.refused_add_changes_nothing", "refused-add-changed-forest/%s" % (why or "unspec"),
                                 {"why": why, "diff": d, "error": exc_class(raised)})
+            if after != before:
+                # another property's run: the model keeps saying "nothing changed" - if something did, the run's own
+                # oracle (what gets written and read back) will say so
+                CTX.probe("foreign.refused_add_changed_forest")
             if mv["parent"] is None:
                 mv["tainted"] = True      # a loose object may carry leftovers of the refused call: unspecified
             if why == "own-ancestor":
